@@ -351,7 +351,12 @@ def run(pid: str, tier: str, seed: int, replay: str | None = None) -> int:
         "violations": len(printed),
     }
     if not replay:
-        fw.write_json(os.path.join(fw.VERIF, "evidence", f"{pid}.json"), ev)
+        # evidence describes runs against /repo itself; a run against another tree (VERIF_REPO, used to try seeded
+        # changes) leaves its record under build/ and never overwrites the committed evidence
+        if os.path.realpath(fw.REPO) == os.path.realpath("/repo"):
+            fw.write_json(os.path.join(fw.VERIF, "evidence", f"{pid}.json"), ev)
+        else:
+            fw.write_json(os.path.join(fw.BUILD, pid, "evidence_other_tree.json"), ev)
 
     for l in outc.known:
         print(l)
